@@ -246,13 +246,13 @@ def _desugar_comprehensions(fn):
             i = 0
             while i < len(blk):
                 s = blk[i]
-                if isinstance(s, ast.Assign) and len(s.targets) == 1 and isinstance(s.targets[0], ast.Name) and isinstance(s.value, (ast.ListComp, ast.SetComp)) and simple_gen(s.value):
+                if isinstance(s, ast.Assign) and len(s.targets) == 1 and isinstance(s.targets[0], ast.Name) and isinstance(s.value, (ast.ListComp, ast.SetComp, ast.DictComp)) and simple_gen(s.value):
                     comp = s.value
                     g = comp.generators[0]
                     x = s.targets[0].id
                     tnames = names_of(g.target)
                     inner = None
-                    if isinstance(g.iter, ast.GeneratorExp) and simple_gen(g.iter) and isinstance(g.target, ast.Name):
+                    if isinstance(g.iter, ast.GeneratorExp) and simple_gen(g.iter):
                         inner = g.iter
                         tnames |= names_of(inner.generators[0].target)
                     # the comprehension variables must not occur outside the comprehension
@@ -264,16 +264,24 @@ def _desugar_comprehensions(fn):
                     if outside or x in tnames:
                         i += 1
                         continue
-                    init = ast.List(elts=[], ctx=ast.Load()) if isinstance(comp, ast.ListComp) else ast.Call(func=ast.Name(id="set", ctx=ast.Load()), args=[], keywords=[])
-                    add = ast.Expr(value=ast.Call(func=ast.Attribute(value=ast.Name(id=x, ctx=ast.Load()), attr="append" if isinstance(comp, ast.ListComp) else "add", ctx=ast.Load()),
-                                                  args=[comp.elt], keywords=[]))
+                    if isinstance(comp, ast.DictComp):
+                        init = ast.Dict(keys=[], values=[])
+                        add = ast.Assign(targets=[ast.Subscript(value=ast.Name(id=x, ctx=ast.Load()), slice=comp.key, ctx=ast.Store())], value=comp.value, lineno=s.lineno)
+                    else:
+                        init = ast.List(elts=[], ctx=ast.Load()) if isinstance(comp, ast.ListComp) else ast.Call(func=ast.Name(id="set", ctx=ast.Load()), args=[], keywords=[])
+                        add = ast.Expr(value=ast.Call(func=ast.Attribute(value=ast.Name(id=x, ctx=ast.Load()), attr="append" if isinstance(comp, ast.ListComp) else "add", ctx=ast.Load()),
+                                                      args=[comp.elt], keywords=[]))
                     body = [add]
                     if g.ifs:
                         test = g.ifs[0] if len(g.ifs) == 1 else ast.BoolOp(op=ast.And(), values=list(g.ifs))
                         body = [ast.If(test=test, body=body, orelse=[])]
                     if inner is not None:
                         ig = inner.generators[0]
-                        body = [ast.Assign(targets=[ast.Name(id=g.target.id, ctx=ast.Store())], value=inner.elt, lineno=s.lineno)] + body
+                        tgt = copy.deepcopy(g.target)
+                        for t_ in ast.walk(tgt):
+                            if isinstance(t_, (ast.Name, ast.Tuple, ast.List)):
+                                t_.ctx = ast.Store()
+                        body = [ast.Assign(targets=[tgt], value=inner.elt, lineno=s.lineno)] + body
                         if ig.ifs:
                             test = ig.ifs[0] if len(ig.ifs) == 1 else ast.BoolOp(op=ast.And(), values=list(ig.ifs))
                             body = [ast.If(test=test, body=body, orelse=[])]
